@@ -9,6 +9,8 @@ Decided (structural, necessary conditions; DESIGN.md section 5 / C03):
   R-STG   (shared with C13) name-based overload resolves the storage first
   R-NARROW (checks/keylen.py, shared with C18) endpoint / key lengths are compared at full width, never after an
           unbounded conversion to the 8-bit key_length_type
+  R-SLICE (C18, shared) the scan descents slice the left key like get/put and never hand find_border a length above
+          the key's own (an 8-byte endpoint must not be routed like the link that sorts after it)
   R-MAX   truncation: after every growth of the result list (a push, or a nested scan that received the list) the test
           `max_size != 0 && list.size() >= max_size` is evaluated before the list can grow again or the visit
           reports OK_SCAN_CONTINUE (a necessary condition of "truncated to the first max_size entries")
@@ -800,7 +802,8 @@ def run(S):
     rule_val(S)
     rule_tab(S)
     rule_max(S)
-    from checks import keylen
+    from checks import keylen, C18
     keylen.rule_narrow(S)
+    C18.rule_slice(S)
     from checks import C13
     C13.rule_stg(S, only=('yakushima::scan',))
